@@ -835,6 +835,8 @@ class ktensor:
 
         if not isinstance(other, ktensor):
             assert False, "other must be a ktensor"
+        if self.shape != other.shape:
+            assert False, "other must have the same shape as the ktensor"
         # Makes typing happy https://github.com/python/mypy/issues/4805
         other_tensor = other.copy()
 
